@@ -202,7 +202,7 @@ func (g *c5gen) newSubject() *subject {
 		return &subject{name: fmt.Sprintf("x%d", id), expr: fmt.Sprintf("x%d", id), kind: kind, index: true}
 	}
 	var s *subject
-	kinds := []string{"slice-string", "slice-int", "slice-iface", "array", "ints", "map1", "mapN", "ranger-idx", "ranger-plain", "ptr-slice", "ranger-chan-typed", "ranger-slice-typed"}
+	kinds := []string{"slice-string", "slice-int", "slice-iface", "array", "array-zero", "ints", "map1", "mapN", "ranger-idx", "ranger-plain", "ptr-slice", "ranger-chan-typed", "ranger-slice-typed"}
 	if g.useChan {
 		kinds = append(kinds, "chan", "chan", "chan", "chan-iface")
 	}
@@ -224,6 +224,10 @@ func (g *c5gen) newSubject() *subject {
 		for i := 0; i < n; i++ {
 			s.elems = append(s.elems, elem{fmt.Sprint(i), fmt.Sprintf("a%d_%d", id, i)})
 		}
+	case "array-zero":
+		// an array all of whose elements are zero values: still two elements
+		s = mk(k)
+		s.elems = []elem{{"0", "0"}, {"1", "0"}}
 	case "ints":
 		from := t.Range(0, 3)
 		cnt := t.Range(1, 4) // ints() rejects empty ranges by documented design
@@ -845,6 +849,8 @@ func c5vars(subs []*subject, mixed []*c5mixed, ifaces []*c5iface, p *Probes, cha
 				a[i] = e.val
 			}
 			vm.Set(s.name, a)
+		case "array-zero":
+			vm.Set(s.name, [2]int{})
 		case "map1", "mapN":
 			m := map[string]string{}
 			for _, e := range s.elems {
